@@ -33,7 +33,7 @@ pub fn info() -> PropertyInfo {
     PropertyInfo {
         id: "C05",
         level: "exploration",
-        rule: "evaluation = a BATCH of 3 different ST projects (generated: 1-4 files, up to 14 TYPEs incl. inline arrays, 10 functions, 4 interfaces, 12 classes/FBs with methods, inheritance and nested instances, 6 programs, 22 globals, tasks, AT bindings, retain variables, namespaces; or project directories / single files of /repo), each with a trace of 2-6 cycles (clock steps, direct-input and global writes), ~2 in 3 with a retain store attached (logging in-memory or FileRetainStore, save interval none/0/1 ms/500 ms/10 s of simulated time; after the trace a fresh runtime loads the store without a final save) and source paths absent / relative / mixed / absolute (files on disk, bundle builder run as well); every project is compiled twice and run twice in each of K>=3 separately started OS processes (different environment size, pre-spawned threads, allocation pre-amble, cwd, TZ, LANG/LC_ALL, HOME, TMPDIR, USER, argv[0], umask, stdin; the last one replays retain traces with real delays between cycles) and every process works through the batch in its own order (as listed / reversed / rotated; one process per three runs each project on a thread of its own, the others the whole batch on one thread), so each project is observed as the first thing a process does and behind one or two unrelated projects; non-trivial = at least two projects of the batch compile with >= 3 POUs and >= 20 interned strings and traces of >= 2 cycles; distinct by SHA-256 of all sources + traces",
+        rule: "evaluation = a BATCH of 3 different ST projects (generated: 1-4 files, up to 14 TYPEs incl. inline arrays, 10 functions, 4 interfaces, 12 classes/FBs with methods, inheritance and nested instances, 6 programs, 22 globals, tasks, AT bindings, retain variables, namespaces; or project directories / single files of /repo), each with a trace of 2-6 cycles (clock steps, direct-input and global writes), ~2 in 3 with a retain store attached (logging in-memory or FileRetainStore, save interval none/0/1 ms/500 ms/10 s of simulated time; after the trace a fresh runtime loads the store without a final save) and source paths absent / relative / mixed / absolute (files on disk, bundle builder run as well; half of those with a build history of 2-4 successive builds in one bundle root - files added/deleted/replaced, mtimes older/newer/equal to the artefact - whose final program.stbc must equal a single build in a fresh root); 8 % of the generated projects are padded (comments, tiny POUs) to size plans at 4/16/64/256 KiB/1 MiB with 1/2/8/32/100 files, projects >= 64 KiB with < 32 files run three repetitions per child; every project is compiled twice and run twice in each of K>=3 separately started OS processes (different environment size, pre-spawned threads, allocation pre-amble, cwd, TZ, LANG/LC_ALL, HOME, TMPDIR, USER, argv[0], umask, stdin; the last one replays retain traces with real delays between cycles) and every process works through the batch in its own order (as listed / reversed / rotated; one process per three runs each project on a thread of its own, the others the whole batch on one thread), so each project is observed as the first thing a process does and behind one or two unrelated projects; non-trivial = at least two projects of the batch compile with >= 3 POUs and >= 20 interned strings and traces of >= 2 cycles; distinct by SHA-256 of all sources + traces",
         assumptions: &[
             "one machine: differences that need another CPU/endianness/libm are out of reach; pid ranges, rlimits, uid and filesystem type are the same in all children",
             "replay speed is varied (real delays between cycles) only for the 1 ms and 500 ms retain save intervals; the delays are inputs, no wall-clock value is used as an oracle",
@@ -56,8 +56,8 @@ pub fn helper(args: &[String]) -> Option<i32> {
         Some("c05-worker") => Some(child::main(args)),
         Some("c05-try") => Some(try_main(args)),
         Some("c05-compile") => {
-            let files: Vec<SrcFile> = args[1..].iter().map(|p| SrcFile { path: None, text: std::fs::read_to_string(p).unwrap_or_default() }).collect();
-            let r = child::run_case_dev(&ChildCase { files, trace: vec![Step { dt_ns: 10_000_000, writes: vec![] }, Step { dt_ns: 10_000_000, writes: vec![] }], retain: None, bundle_sources: None }, true);
+            let files: Vec<SrcFile> = args[1..].iter().map(|p| SrcFile { path: None, text: std::fs::read_to_string(p).unwrap_or_default(), pad: 0 }).collect();
+            let r = child::run_case_dev(&ChildCase { files, trace: vec![Step { dt_ns: 10_000_000, writes: vec![] }, Step { dt_ns: 10_000_000, writes: vec![] }], retain: None, bundle_sources: None, history: None }, true);
             println!("{} {}", r.reps[0].stbc, r.reps[0].full.as_ref().map(|f| f.compile_error.clone()).unwrap_or_default());
             println!("faults: {:?}", r.reps[0].full.as_ref().map(|f| f.faults.clone()));
             Some(0)
@@ -76,6 +76,9 @@ pub struct Case {
     /// retain store attached while the trace runs (None = no store)
     #[serde(default)]
     pub retain: Option<RetainCfg>,
+    /// successive builds in one bundle root before the final one (projects on disk)
+    #[serde(default)]
+    pub history: Option<gen::BuildHistory>,
     /// true for cases drawn by the strategy in this run, false for replay files (serde
     /// default) - the shrink budget below must never be started by a failing replay
     #[serde(skip)]
@@ -90,11 +93,12 @@ impl Case {
             files: self
                 .files
                 .iter()
-                .map(|f| SrcFile { path: f.path.as_ref().map(|p| p.replacen(gen::ABS_PREFIX, abs_root, 1)), text: f.text.clone() })
+                .map(|f| SrcFile { path: f.path.as_ref().map(|p| p.replacen(gen::ABS_PREFIX, abs_root, 1)), text: f.text.clone(), pad: f.pad })
                 .collect(),
             trace: self.trace.clone(),
             retain: self.retain.clone(),
             bundle_sources: if absolute && self.files.iter().all(|f| f.path.is_some()) { Some(abs_root.to_string()) } else { None },
+            history: if absolute { self.history.clone() } else { None },
         }
     }
     fn key(&self) -> Vec<u8> {
@@ -103,6 +107,7 @@ impl Case {
             k.extend_from_slice(f.path.as_deref().unwrap_or("-").as_bytes());
             k.push(0);
             k.extend_from_slice(f.text.as_bytes());
+            k.extend_from_slice(&f.pad.to_le_bytes());
             k.push(0);
         }
         k.extend_from_slice(serde_json::to_string(&self.trace).unwrap_or_default().as_bytes());
@@ -147,7 +152,7 @@ fn words(n: usize) -> impl Strategy<Value = Tape> {
 /// classes/FBs, programs).
 fn tapes_sized(scale: [usize; 6]) -> impl Strategy<Value = Tapes> {
     (
-        words(16),
+        words(20),
         proptest::collection::vec(words(40), 0..=scale[0]),
         proptest::collection::vec(words(8), 0..=scale[1]),
         proptest::collection::vec(words(160), 0..=scale[2]),
@@ -155,10 +160,11 @@ fn tapes_sized(scale: [usize; 6]) -> impl Strategy<Value = Tapes> {
         proptest::collection::vec(words(420), 0..=scale[4]),
         proptest::collection::vec(words(520), 1..=scale[5]),
         words(120),
-        words(16),
+        words(40),
         proptest::collection::vec(words(80), 2..=6),
+        words(48),
     )
-        .prop_map(|(head, types, globals, funcs, itfs, classlikes, programs, config, layout, steps)| Tapes {
+        .prop_map(|(head, types, globals, funcs, itfs, classlikes, programs, config, layout, steps, hist)| Tapes {
             head,
             types,
             globals,
@@ -169,6 +175,7 @@ fn tapes_sized(scale: [usize; 6]) -> impl Strategy<Value = Tapes> {
             config,
             layout,
             steps,
+            hist,
         })
 }
 
@@ -185,7 +192,7 @@ fn gen_case_strategy() -> impl Strategy<Value = Case> {
     tapes_strategy().prop_map(|t| {
         let g = gen::generate(&t);
         let retain = g.retain.map(|(interval_ns, file)| RetainCfg { interval_ns, file });
-        Case { origin: "generated".into(), files: g.files, trace: g.trace, stats: Some(g.stats), retain, fresh: true }
+        Case { origin: "generated".into(), files: g.files, trace: g.trace, stats: Some(g.stats), retain, history: g.history, fresh: true }
     })
 }
 
@@ -262,6 +269,7 @@ fn corpus_case(p: &Project, steps: &[Tape], path_mode: u8, retain_sel: u8) -> Ca
                 }
             },
             text: text.clone(),
+            pad: 0,
         })
         .collect();
     let retain = match retain_sel % 5 {
@@ -285,7 +293,21 @@ fn corpus_case(p: &Project, steps: &[Tape], path_mode: u8, retain_sel: u8) -> Ca
         }
         trace.push(Step { dt_ns: dt, writes });
     }
-    Case { origin: format!("corpus:{}", p.name), files, trace, stats: None, retain, fresh: false }
+    Case { origin: format!("corpus:{}", p.name), files, trace, stats: None, retain, history: corpus_history(path_mode, retain_sel, p.files.len()), fresh: false }
+}
+
+/// A fixed little build history for corpus projects on disk: populate with an extra file,
+/// build, then reach the final state by deleting the extra (nothing else changes), build.
+fn corpus_history(path_mode: u8, sel: u8, n_files: usize) -> Option<gen::BuildHistory> {
+    use gen::{BuildHistory, FileOp, HistStep, MTime};
+    if path_mode % 3 != 2 || sel % 2 == 0 {
+        return None;
+    }
+    let mut first: Vec<FileOp> = (0..n_files).map(|f| FileOp::Write { file: f, alt: f == 0 && sel % 3 == 0, mtime: MTime::Now }).collect();
+    first.push(FileOp::WriteExtra { k: 0, mtime: MTime::Older });
+    Some(BuildHistory {
+        steps: vec![HistStep { ops: first }, HistStep { ops: vec![FileOp::SetMtime { file: 0, mtime: if sel % 4 == 1 { MTime::Older } else { MTime::Now } }] }],
+    })
 }
 
 #[derive(Clone, Debug, Serialize, Deserialize)]
@@ -528,6 +550,18 @@ fn first_difference(a: &Rep, b: &Rep) -> Option<String> {
     if !a.bundle.is_empty() && !b.bundle.is_empty() && a.bundle != b.bundle {
         return Some("program.stbc written by bundle_builder::build_program_stbc differs".into());
     }
+    for x in [a, b] {
+        if !x.hist.is_empty() && x.hist != x.hist_fresh {
+            return Some(format!(
+                "build history: program.stbc after successive builds in one bundle root ({}) differs from a single build of the same final sources in a fresh root ({})",
+                short(&x.hist),
+                short(&x.hist_fresh)
+            ));
+        }
+    }
+    if !a.hist_nodebug.is_empty() && !b.hist_nodebug.is_empty() && a.hist_nodebug != b.hist_nodebug {
+        return Some("build history: program.stbc after the history differs between observations (debug path strings excluded)".into());
+    }
     None
 }
 
@@ -579,6 +613,11 @@ fn full_diff(a: &Rep, b: &Rep) -> Option<String> {
     if fa.bundle_error != fb.bundle_error {
         return Some(format!("bundle builder: A: {} | B: {}", short(&fa.bundle_error), short(&fb.bundle_error)));
     }
+    for (x, fx) in [(a, fa), (b, fb)] {
+        if !x.hist.is_empty() && x.hist != x.hist_fresh {
+            return Some(format!("build history that ends in a stale artefact:\n    {}", fx.hist_log.join("\n    ")));
+        }
+    }
     None
 }
 
@@ -598,7 +637,7 @@ fn find_mismatch(results: &[Vec<CaseResult>], case_idx: usize) -> Option<(String
     None
 }
 
-fn classify(case: &Case, rep0: &Rep, probe: &mut Probe) -> bool {
+fn classify(case: &Case, rep0: &Rep, rep0_reps: usize, probe: &mut Probe) -> bool {
     probe.label(if rep0.stbc == "ERR" { "compile=rejected" } else if rep0.stbc.starts_with("PANIC") { "compile=panic" } else { "compile=ok" });
     let origin = if case.origin.starts_with("corpus") { "corpus" } else { "generated" };
     probe.label(format!("origin={origin}"));
@@ -634,6 +673,35 @@ fn classify(case: &Case, rep0: &Rep, probe: &mut Probe) -> bool {
     if !rep0.bundle.is_empty() {
         probe.label(if rep0.bundle.len() == 64 { "bundle_builder=ok" } else { "bundle_builder=rejected" });
     }
+    if let Some(h) = &case.history {
+        if !rep0.hist.is_empty() {
+            probe.label(format!("build_history={}_builds{}", h.steps.len(), if rep0.hist.len() == 64 { "" } else { ",rejected" }));
+        }
+    }
+    let total: usize = case.files.iter().map(|f| f.text.len() + f.pad as usize).sum();
+    probe.label(format!(
+        "source_bytes={}",
+        match total {
+            0..=4095 => "<4K",
+            4096..=16383 => "4K-16K",
+            16384..=65535 => "16K-64K",
+            65536..=262143 => "64K-256K",
+            262144..=1048575 => "256K-1M",
+            _ => ">=1M",
+        }
+    ));
+    probe.label(format!(
+        "file_count={}",
+        match case.files.len() {
+            1 => "1",
+            2 => "2",
+            3..=7 => "3-7",
+            8..=31 => "8-31",
+            32..=99 => "32-99",
+            _ => "100+",
+        }
+    ));
+    probe.label(format!("repetitions_per_child={}", rep0_reps));
     if let Some(s) = &case.stats {
         probe.label(if s.configuration { "config=yes" } else { "config=no" });
         probe.label(format!("tasks={}", s.tasks.min(5)));
@@ -679,7 +747,7 @@ fn check_batch(ch: &Children, cases: &[Case], probe: &mut Probe) -> Result<(), S
         if cc.bundle_sources.is_some() {
             for f in &cc.files {
                 if let Some(p) = &f.path {
-                    let _ = std::fs::write(p, &f.text);
+                    let _ = std::fs::write(p, gen::expand(f));
                 }
             }
         }
@@ -716,7 +784,7 @@ fn check_batch(ch: &Children, cases: &[Case], probe: &mut Probe) -> Result<(), S
     let mut type_tables: Vec<&str> = Vec::new();
     for (j, case) in cases.iter().enumerate() {
         let rep0 = &results[0][j].reps[0];
-        if classify(case, rep0, probe) {
+        if classify(case, rep0, results[0][j].reps.len(), probe) {
             good += 1;
         }
         if let Some((_, d)) = rep0.sections.iter().find(|(id, _)| *id == 2) {
@@ -786,7 +854,7 @@ fn check_batch(ch: &Children, cases: &[Case], probe: &mut Probe) -> Result<(), S
 /// failure of a fresh case at most SHRINK_BUDGET further candidates (each a whole batch) are evaluated, the rest
 /// are not explored (reported as passing to proptest, which then stops at the smallest
 /// failing case found so far). Replay files never start or consume the budget.
-const SHRINK_BUDGET: usize = 80;
+const SHRINK_BUDGET: usize = 30;
 static FAILED: std::sync::atomic::AtomicBool = std::sync::atomic::AtomicBool::new(false);
 static AFTER_FAILURE: std::sync::atomic::AtomicUsize = std::sync::atomic::AtomicUsize::new(0);
 
@@ -887,7 +955,7 @@ fn try_main(args: &[String]) -> i32 {
         let started = std::time::Instant::now();
         let r = child::run_case_dev(&case.child("/nonexistent-abs"), std::env::var("C05_TRY_FAST").is_err());
         let rep = &r.reps[0];
-        let bytes: usize = case.files.iter().map(|f| f.text.len()).sum();
+        let bytes: usize = case.files.iter().map(|f| f.text.len() + f.pad as usize).sum();
         if rep.stbc.len() == 64 {
             ok += 1;
             println!(
